@@ -15,6 +15,7 @@ const (
 	gRunning
 	gBlocked
 	gDone
+	gFrozen
 )
 
 type selCase struct {
